@@ -588,9 +588,8 @@ func ruleL2(p *Prog) *RuleResult {
 				for _, b := range f.Blocks {
 					for _, ins := range b.Instrs {
 						if c, ok := ins.(*ssa.Call); ok {
-							if callee := c.Call.StaticCallee(); callee != nil && callee.Name() == "PutUint32" && len(c.Call.Args) == 3 {
+							if v, ok := uint32Emitted(c); ok {
 								// the value written is the running offset (a phi converted to uint32), not a constant cookie
-								v := c.Call.Args[2]
 								if cv, ok := v.(*ssa.Convert); ok {
 									v = cv.X
 								}
@@ -625,6 +624,9 @@ func ruleL2(p *Prog) *RuleResult {
 						return true, bo.Op == token.EQL
 					}
 				}
+				if runFlagField(other) {
+					return true, bo.Op == token.EQL
+				}
 				return false, false
 			},
 			isN: func(v ssa.Value) bool {
@@ -640,7 +642,7 @@ func ruleL2(p *Prog) *RuleResult {
 						return true
 					}
 				}
-				return false
+				return decodedCountField(v)
 			},
 			target: func(f *ssa.Function) []*ssa.BasicBlock {
 				var out []*ssa.BasicBlock
@@ -679,6 +681,26 @@ func ruleL2(p *Prog) *RuleResult {
 		targets := s.target(f)
 		if len(targets) == 0 {
 			res.undecided(s.fn, p.pos(f.Pos()), "the code that handles the offset header was not recognised")
+			continue
+		}
+		// the truth table below explores both sides of every condition it cannot evaluate: if neither the run
+		// predicate nor the count is recognised in any condition, every case would come out "present"
+		recRun, recN := false, false
+		for _, b := range f.Blocks {
+			if ifi, ok := b.Instrs[len(b.Instrs)-1].(*ssa.If); ok {
+				sliceBack(ifi.Cond, func(v ssa.Value) bool {
+					if isR, _ := s.isRun(v); isR {
+						recRun = true
+					}
+					if bo, ok := v.(*ssa.BinOp); ok && (s.isN(bo.X) || s.isN(bo.Y)) {
+						recN = true
+					}
+					return false
+				})
+			}
+		}
+		if !recRun || !recN {
+			res.undecided(s.fn, p.pos(f.Pos()), fmt.Sprintf("the offset-header predicate was not recognised in %s (run flag recognised: %v, container count recognised: %v)", fname(f), recRun, recN))
 			continue
 		}
 		var diffs []string
@@ -832,6 +854,83 @@ func isDecodedCountPhi(ph *ssa.Phi) bool {
 	return hasRead && hasShift
 }
 
+// fieldStoreSources: v is a load of a field of a local struct variable (a named result such as hdr.isRunBitmap):
+// the values stored into that field anywhere in the function. The variable starts out zeroed.
+func fieldStoreSources(v ssa.Value) ([]ssa.Value, bool) {
+	u, ok := v.(*ssa.UnOp)
+	if !ok || u.Op != token.MUL {
+		return nil, false
+	}
+	fa, ok := u.X.(*ssa.FieldAddr)
+	if !ok {
+		return nil, false
+	}
+	al, ok := fa.X.(*ssa.Alloc)
+	if !ok {
+		return nil, false
+	}
+	var out []ssa.Value
+	for _, b := range al.Parent().Blocks {
+		for _, ins := range b.Instrs {
+			if st, ok := ins.(*ssa.Store); ok {
+				if fa2, ok := st.Addr.(*ssa.FieldAddr); ok && fa2.X == ssa.Value(al) && fa2.Field == fa.Field {
+					out = append(out, st.Val)
+				}
+			}
+		}
+	}
+	return out, len(out) > 0
+}
+
+// runFlagField: a field of a zero-initialised local struct that receives the result of Next on one path only
+func runFlagField(v ssa.Value) bool {
+	srcs, ok := fieldStoreSources(v)
+	if !ok {
+		return false
+	}
+	for _, s := range srcs {
+		if ex, ok := s.(*ssa.Extract); ok {
+			if c, ok := ex.Tuple.(*ssa.Call); ok && c.Call.IsInvoke() && c.Call.Method.Name() == "Next" {
+				return true
+			}
+		}
+	}
+	return false
+}
+
+// decodedCountField: a field that receives cookie>>16 + 1 on one path and the result of ReadUInt32 on another
+func decodedCountField(v ssa.Value) bool {
+	srcs, ok := fieldStoreSources(v)
+	if !ok {
+		return false
+	}
+	hasRead, hasShift := false, false
+	var walk func(v ssa.Value, d int)
+	walk = func(v ssa.Value, d int) {
+		if d > 5 {
+			return
+		}
+		switch x := v.(type) {
+		case *ssa.Convert:
+			walk(x.X, d+1)
+		case *ssa.BinOp:
+			if x.Op == token.SHR {
+				hasShift = true
+			}
+			walk(x.X, d+1)
+			walk(x.Y, d+1)
+		case *ssa.Extract:
+			if c, ok := x.Tuple.(*ssa.Call); ok && c.Call.IsInvoke() && c.Call.Method.Name() == "ReadUInt32" {
+				hasRead = true
+			}
+		}
+	}
+	for _, s := range srcs {
+		walk(s, 0)
+	}
+	return hasRead && hasShift
+}
+
 func presentWord(b bool) string {
 	if b {
 		return "present"
@@ -939,8 +1038,7 @@ func ruleL5(p *Prog) *RuleResult {
 		for _, b := range f.Blocks {
 			for _, ins := range b.Instrs {
 				if c, ok := ins.(*ssa.Call); ok {
-					if callee := c.Call.StaticCallee(); callee != nil && callee.Name() == "PutUint32" && len(c.Call.Args) == 3 {
-						v := c.Call.Args[2]
+					if v, ok := uint32Emitted(c); ok {
 						if cv, ok := v.(*ssa.Convert); ok {
 							v = cv.X
 						}
@@ -961,8 +1059,7 @@ func ruleL5(p *Prog) *RuleResult {
 		for _, b := range f.Blocks {
 			for _, ins := range b.Instrs {
 				if c, ok := ins.(*ssa.Call); ok {
-					if callee := c.Call.StaticCallee(); callee != nil && callee.Name() == "PutUint32" && len(c.Call.Args) == 3 {
-						v := c.Call.Args[2]
+					if v, ok := uint32Emitted(c); ok {
 						if cv, ok := v.(*ssa.Convert); ok {
 							v = cv.X
 						}
@@ -1210,4 +1307,20 @@ func phisThroughCall(v ssa.Value) []*ssa.Phi {
 		}
 	}
 	return out
+}
+
+// uint32Emitted: the value a call writes as a little-endian 32-bit field — PutUint32(buf, v) into a pre-sized
+// slice, or AppendUint32(dst, v) onto a growing one
+func uint32Emitted(c *ssa.Call) (ssa.Value, bool) {
+	callee := c.Call.StaticCallee()
+	if callee == nil {
+		return nil, false
+	}
+	switch {
+	case callee.Name() == "PutUint32" && len(c.Call.Args) == 3:
+		return c.Call.Args[2], true
+	case callee.Name() == "AppendUint32" && len(c.Call.Args) == 3:
+		return c.Call.Args[2], true
+	}
+	return nil, false
 }
